@@ -14,11 +14,12 @@ from liquid2 import Node
 from liquid2 import Tag
 from liquid2 import TagToken
 from liquid2 import TokenStream
-from liquid2.builtin.expressions import identifier_as_source
 from liquid2.builtin import Identifier
 from liquid2.builtin import parse_parameters
 from liquid2.builtin import parse_positional_and_keyword_arguments
 from liquid2.builtin import parse_string_or_identifier
+from liquid2.builtin.expressions import identifier_as_source
+from liquid2.exceptions import LiquidError
 from liquid2.undefined import Undefined
 from liquid2.undefined import is_undefined
 
@@ -36,6 +37,8 @@ class Macro:
 
     args: dict[str, Parameter]
     block: BlockNode
+    template_name: str = ""
+    """The name of the template the macro was defined in."""
 
 
 @dataclass(kw_only=True, slots=True)
@@ -81,7 +84,9 @@ class MacroNode(Node):
         # Macro tags don't render or evaluate anything, just store their arguments list
         # and block on the render context so it can be called later by a `call` tag.
         context.tag_namespace["macros"][self.name] = Macro(
-            args=self.args, block=self.block
+            args=self.args,
+            block=self.block,
+            template_name=context.template.full_name(),
         )
         return 0
 
@@ -185,7 +190,13 @@ class CallNode(Node):
             carry_loop_iterations=True,
         )
 
-        return macro.block.render(macro_context, buffer)
+        try:
+            return macro.block.render(macro_context, buffer)
+        except LiquidError as err:
+            # The macro might have been defined in another template.
+            if not err.template_name:
+                err.template_name = macro.template_name
+            raise
 
     async def render_to_output_async(
         self,
@@ -224,7 +235,12 @@ class CallNode(Node):
             carry_loop_iterations=True,
         )
 
-        return await macro.block.render_async(macro_context, buffer)
+        try:
+            return await macro.block.render_async(macro_context, buffer)
+        except LiquidError as err:
+            if not err.template_name:
+                err.template_name = macro.template_name
+            raise
 
     def macro_args(self, macro: Macro) -> BoundArgs:
         """Bind this call's arguments to macro parameter names."""
